@@ -101,6 +101,10 @@ def run_dpseg(nfolds, plan_by_call, text=None):
 _PAR = {}
 
 
+class DiscoveryFailed(Exception):
+    """the sequential runs that tell the folds apart (fold k scripted to exit 1) did not behave: itself a violation"""
+
+
 def par_setup():
     if not _PAR:
         import atexit
@@ -128,6 +132,7 @@ def fold_inputs(nfolds):
             os.environ['DPSEG_STUB_CAPTURE'] = par['cap']
             try:
                 list(dpseg.segment(list(TEXT), nfolds=nfolds, njobs=1, args='--randseed 1'))
+                raise DiscoveryFailed('dpseg.segment(nfolds=%d, njobs=1) returned normally although the program exits 1 on fold %d' % (nfolds, k))
             except RuntimeError:
                 pass
             finally:
@@ -135,7 +140,7 @@ def fold_inputs(nfolds):
                 os.environ.pop('DPSEG_STUB_PLAN', None)
             cur = {f[:-3] for f in os.listdir(par['cap']) if f.endswith('.in')}
             if len(cur - prev) != 1:
-                raise RuntimeError('cannot tell the input of fold %d of %d apart' % (k, nfolds))
+                raise DiscoveryFailed('the sequential run that fails at fold %d of %d does not stop there (%d new inputs seen)' % (k, nfolds, len(cur - prev)))
             hs.append((cur - prev).pop())
             prev = cur
         par['folds'][nfolds] = hs
@@ -292,7 +297,12 @@ def main():
     # several jobs (after the sequential scenarios: see par_setup)
     njobs_obs = []
     for kind, n, plan, nj in parallel_scenarios(ck, scs):
-        njobs_obs.append(((kind, n, plan, nj), run_ag(n, plan, njobs=nj) if kind == 'ag' else run_dpseg_par(n, plan, nj)))
+        try:
+            njobs_obs.append(((kind, n, plan, nj), run_ag(n, plan, njobs=nj) if kind == 'ag' else run_dpseg_par(n, plan, nj)))
+        except DiscoveryFailed as e:
+            ck.violation({'site': 'dpseg.segment', 'input': {'nfolds': n, 'njobs': 1, 'scenario': 'the stand-in exits 1 on one fold'}},
+                         'property fails on the implementation: a failing dpseg process was not reported as RuntimeError: ' + str(e))
+            break
         ck.count('njobs:%s:%d' % (kind, nj))
     # the property itself, on the implementation
     bad = []
